@@ -1,0 +1,56 @@
+// SPDX-FileCopyrightText: 2026 The Pion community <https://pion.ly>
+// SPDX-License-Identifier: MIT
+
+//go:build verif
+
+package sctp
+
+// Reassembly queue (C11 accounting, C18 short-buffer reads, C01/C06 in-order release, C07 purge frames).
+
+func specSubSat(cur uint64, n int) uint64 {
+	if int(cur) >= n {
+		return cur - uint64(n)
+	}
+
+	return 0
+}
+
+//@ func reassemblyQueue.subtractNumBytes
+//@   ensures#saturating r.nBytes == specSubSat(old(r.nBytes), nBytes)
+//@   modifies r.nBytes
+//@   tags C11
+
+//@ func reassemblyQueue.read
+//@   assume#no-nil-entries (len(r.ordered) > 0 ==> r.ordered[0] != nil) && (len(r.unordered) > 0 ==> r.unordered[0] != nil) &&
+//@      (len(r.orderedMID) > 0 ==> r.orderedMID[0] != nil) && (len(r.unorderedMID) > 0 ==> r.unorderedMID[0] != nil)
+//@   assume#no-nil-chunks-ordered forall i int :: len(r.ordered) > 0 && 0 <= i && i < len(r.ordered[0].chunks) ==> r.ordered[0].chunks[i] != nil && len(r.ordered[0].chunks[i].userData) <= 65535
+//@   assume#no-nil-chunks-unordered forall i int :: len(r.unordered) > 0 && 0 <= i && i < len(r.unordered[0].chunks) ==> r.unordered[0].chunks[i] != nil && len(r.unordered[0].chunks[i].userData) <= 65535
+//@   assume#no-nil-chunks-ordered-mid forall i int :: len(r.orderedMID) > 0 && 0 <= i && i < len(r.orderedMID[0].chunks) ==> r.orderedMID[0].chunks[i] != nil && len(r.orderedMID[0].chunks[i].userData) <= 65535
+//@   assume#no-nil-chunks-unordered-mid forall i int :: len(r.unorderedMID) > 0 && 0 <= i && i < len(r.unorderedMID[0].chunks) ==> r.unorderedMID[0].chunks[i] != nil && len(r.unorderedMID[0].chunks[i].userData) <= 65535
+//@   loop 1 invariant#total nTotal >= 0 && nTotal <= 65535*rangeIdx && rangeIdx <= len(iSet.chunks) && (err == nil ==> nTotal <= len(buf))
+//@   loop 2 invariant#total nTotal >= 0 && nTotal <= 65535*rangeIdx && rangeIdx <= len(cset.chunks) && (err == nil ==> nTotal <= len(buf))
+//@   ensures#failed-read-keeps-everything{C18,C11} result2 != nil ==> r.nBytes == old(r.nBytes) && r.nextSSN == old(r.nextSSN) && r.nextMID == old(r.nextMID) &&
+//@      sameSlice(r.ordered, old(r.ordered)) && sameSlice(r.unordered, old(r.unordered)) &&
+//@      sameSlice(r.orderedMID, old(r.orderedMID)) && sameSlice(r.unorderedMID, old(r.unorderedMID))
+//@   ensures#bytes-released-on-success{C11} result2 == nil ==> r.nBytes == specSubSat(old(r.nBytes), result0)
+//@   ensures#unordered-first{C06} result2 == nil && !old(r.useInterleaving) && old(len(r.unordered)) > 0 ==>
+//@      sameSlice(r.unordered, old(r.unordered[1:])) && sameSlice(r.ordered, old(r.ordered)) && r.nextSSN == old(r.nextSSN)
+//@   ensures#ordered-in-sequence{C01,C06,C16} result2 == nil && !old(r.useInterleaving) && old(len(r.unordered)) == 0 ==>
+//@      old(len(r.ordered)) > 0 && !specSerGT16(old(r.ordered[0].ssn), old(r.nextSSN)) && sameSlice(r.ordered, old(r.ordered[1:])) &&
+//@      r.nextSSN == old(r.nextSSN)+ite(old(r.ordered[0].ssn) == old(r.nextSSN), uint16(1), uint16(0))
+//@   ensures#ordered-mid-in-sequence{C01,C06,C16,C17} result2 == nil && old(r.useInterleaving) && old(len(r.unorderedMID)) == 0 ==>
+//@      old(len(r.orderedMID)) > 0 && !specSerGT32(old(r.orderedMID[0].mid), old(r.nextMID)) && sameSlice(r.orderedMID, old(r.orderedMID[1:])) &&
+//@      r.nextMID == old(r.nextMID)+ite(old(r.orderedMID[0].mid) == old(r.nextMID), uint32(1), uint32(0))
+//@   ensures#unordered-mid-first{C06,C17} result2 == nil && old(r.useInterleaving) && old(len(r.unorderedMID)) > 0 ==>
+//@      sameSlice(r.unorderedMID, old(r.unorderedMID[1:])) && sameSlice(r.orderedMID, old(r.orderedMID)) && r.nextMID == old(r.nextMID)
+//@   safety C03
+
+//@ func reassemblyQueue.forwardTSNForUnordered
+//@   loop 1 invariant#scanned lastIdx == rangeIdx-1 && rangeIdx <= len(r.unorderedChunks) && sameSlice(r.unorderedChunks, old(r.unorderedChunks)) &&
+//@      (rangeIdx > 0 ==> r.unorderedChunks[rangeIdx-1] != nil && !specSerGT32(r.unorderedChunks[rangeIdx-1].tsn, newCumulativeTSN))
+//@   assume#non-nil-chunks forall i int :: 0 <= i && i < len(r.unorderedChunks) ==> r.unorderedChunks[i] != nil
+//@   ensures#purged-up-to-and-including{C11,C07} len(r.unorderedChunks) > 0 ==> specSerGT32(r.unorderedChunks[0].tsn, newCumulativeTSN)
+//@   ensures#only-a-prefix-removed{C07} len(r.unorderedChunks) <= old(len(r.unorderedChunks)) &&
+//@      sameSlice(r.unorderedChunks, old(r.unorderedChunks)[old(len(r.unorderedChunks))-len(r.unorderedChunks):])
+//@   ensures#others-untouched{C07} sameSlice(r.ordered, old(r.ordered)) && sameSlice(r.unordered, old(r.unordered)) && r.nextSSN == old(r.nextSSN)
+//@   safety C03
